@@ -20,6 +20,7 @@ import (
 	"math/rand"
 	"net"
 	"net/http"
+	"strings"
 	"sync"
 	"sync/atomic"
 	"time"
@@ -529,6 +530,93 @@ func c19StopBusyReconnect() []int64 {
 	return []int64{0, refused, works, atomic.LoadInt64(&news), atomic.LoadInt64(&gones)}
 }
 
+// gateLog parks the goroutine that logs a line with the given prefix (once, when armed): the library's logger is a
+// public extension point (ws.SetLogger), which makes the moment "the write routine has picked up the forced close,
+// cleanup has not run yet" addressable.
+type gateLog struct {
+	prefix  string
+	armed   int32
+	reached chan struct{}
+	release chan struct{}
+}
+
+func (l *gateLog) Debug(args ...interface{}) {}
+func (l *gateLog) Debugf(format string, args ...interface{}) {
+	if strings.HasPrefix(format, l.prefix) && atomic.CompareAndSwapInt32(&l.armed, 1, 0) {
+		close(l.reached)
+		<-l.release
+	}
+}
+func (l *gateLog) Info(args ...interface{})                  {}
+func (l *gateLog) Infof(format string, args ...interface{})  {}
+func (l *gateLog) Error(args ...interface{})                 {}
+func (l *gateLog) Errorf(format string, args ...interface{}) {}
+
+// c19StopDuringLoss (C16, C17): Stop is called while a connection loss is being handled (the client still counts as
+// connected).  After Stop has returned the client must not dial again, let alone be connected.
+func c19StopDuringLoss() []int64 {
+	raw := startRaw()
+	defer raw.stop()
+	cl := newC17Client(raw.port, 5, 0, 0)
+	gl := &gateLog{prefix: "handling forced close signal", reached: make(chan struct{}), release: make(chan struct{})}
+	ws.SetLogger(gl)
+	done := make(chan error, 1)
+	go func() { done <- cl.c.Start(cl.url) }()
+	p := raw.nextDial(2 * time.Second)
+	if p == nil {
+		return []int64{-4}
+	}
+	p.done <- true
+	if err := <-done; err != nil {
+		return []int64{-4}
+	}
+	time.Sleep(5 * time.Millisecond)
+	raw.mu.Lock()
+	conn := raw.conn
+	dials0 := raw.dials
+	raw.mu.Unlock()
+	if conn == nil {
+		return []int64{-5}
+	}
+	atomic.StoreInt32(&gl.armed, 1)
+	_ = conn.UnderlyingConn().Close() // the connection is lost
+	select {
+	case <-gl.reached: // the write routine has the forced-close signal, cleanup has not run
+	case <-time.After(3 * time.Second):
+		close(gl.release)
+		return []int64{2, 0} // the window did not open on this run
+	}
+	stopped := make(chan struct{})
+	go func() { cl.c.Stop(); close(stopped) }()
+	select {
+	case <-stopped:
+	case <-time.After(3 * time.Second):
+		close(gl.release)
+		return []int64{-8}
+	}
+	close(gl.release)
+	late := raw.nextDial(400 * time.Millisecond) // a reconnection attempt after Stop would show up here
+	if late != nil {
+		late.done <- true
+		time.Sleep(30 * time.Millisecond)
+	}
+	raw.mu.Lock()
+	dials1 := raw.dials
+	raw.mu.Unlock()
+	cl.mu.Lock()
+	recon := int64(0)
+	for _, e := range cl.ev {
+		if e == 3 {
+			recon++
+		}
+	}
+	cl.mu.Unlock()
+	if late == nil && dials1 == dials0 && !cl.c.IsConnected() && recon == 0 {
+		return []int64{1, 0}
+	}
+	return []int64{0, int64(dials1 - dials0), b2i(cl.c.IsConnected()), recon}
+}
+
 func c19Eval(in []int64) []int64 {
 	if len(in) < 3 {
 		return []int64{-1}
@@ -552,6 +640,8 @@ func c19Eval(in []int64) []int64 {
 		return gatedEval(in)
 	case 15:
 		return c19StopBusyReconnect()
+	case 18:
+		return c19StopDuringLoss()
 	}
 	return []int64{-1}
 }
